@@ -1,22 +1,273 @@
 package main
 
-// Table "ResolverSkeleton" (C02): one row per resolve*Ref routine of openapi3/loader.go —
-// the skeleton steps it contains and the resolvers it calls on child positions, in source order.
-// Purely syntactic (go/ast): a routine whose shape is not the expected one yields an `unrecognised` row.
+// Table "ResolverSkeleton" (C02): one row per resolve*Ref routine of openapi3/loader.go, one per walk helper
+// (resolve*Refs), one for ResolveRefsIn ("Document"), and one "fn:<name>" row per function the one-step layer of
+// the model was written from (its text, or a digest of its text):
+//   steps — the statements of the `if ref := X.Ref; ref != "" { … }` block (and the isEmpty test before it),
+//           statement by statement in source order, each classified by its exact (whitespace-normalised) text
+//           modulo the kind name and the name of the element variable;
+//   calls — the resolvers / helpers called on child positions after that block, in source order; a `return` of a
+//           new error among them appears as "!error".
+// Purely syntactic (go/ast + go/printer). A statement that is none of the expected shapes, or a child call that
+// does not pass (doc, <x>, documentPath|location …) on, makes the row `unrecognised` — nothing is skipped.
 
 import (
 	"bytes"
+	"crypto/sha256"
+	"encoding/hex"
 	"fmt"
 	"go/ast"
 	"go/parser"
 	"go/printer"
 	"go/token"
 	"path/filepath"
+	"regexp"
 	"sort"
 	"strings"
 )
 
 func init() { register("ResolverSkeleton", extractResolverSkeleton) }
+
+var rsSpace = regexp.MustCompile(`\s+`)
+
+func rsText(fset *token.FileSet, n ast.Node) string {
+	var buf bytes.Buffer
+	printer.Fprint(&buf, fset, n)
+	return strings.TrimSpace(rsSpace.ReplaceAllString(buf.String(), " "))
+}
+
+type rsRow struct {
+	name  string
+	steps []string
+	calls []string
+	bad   string
+}
+
+// rsPat: statement text (with K = kind name, C = the component parameter) -> token
+type rsPat struct {
+	re  string
+	tok string
+}
+
+func rsMatch(pats []rsPat, kind, comp, text string) (string, bool) {
+	for _, p := range pats {
+		re := strings.NewReplacer("‹K›", regexp.QuoteMeta(kind), "‹C›", regexp.QuoteMeta(comp), "‹ID›", `[A-Za-z_][A-Za-z0-9_]*`).Replace(p.re)
+		if regexp.MustCompile("^" + re + "$").MatchString(text) {
+			return p.tok, true
+		}
+	}
+	return "", false
+}
+
+func q(s string) string {
+	// quote a literal Go fragment for use inside a pattern, keeping the ‹…› placeholders
+	parts := regexp.MustCompile(`‹[A-Z]+›`).FindAllStringIndex(s, -1)
+	var b strings.Builder
+	last := 0
+	for _, p := range parts {
+		b.WriteString(regexp.QuoteMeta(s[last:p[0]]))
+		b.WriteString(s[p[0]:p[1]])
+		last = p[1]
+	}
+	b.WriteString(regexp.QuoteMeta(s[last:]))
+	return b.String()
+}
+
+var rsTop = []rsPat{
+	{q(`if ‹C›.isEmpty() { return errMUST‹K› }`), "empty"},
+	{q(`if ‹C› == nil { err = errMUST‹K› return }`), "empty"},
+}
+
+var rsBlock = []rsPat{
+	{q(`if ‹C›.Value != nil { return nil }`), "value"},
+	{q(`if !‹C›.isEmpty() { return }`), "value"},
+	{q(`loader.visitRef(ref)`), "visit"},
+	{q(`‹C›.Ref = ref`), "keepRef"},
+	{q(`defer loader.unvisitRef(ref, ‹C›.Value)`), "defer:unvisit"},
+	{q(`defer loader.unvisitRef(ref, ‹C›)`), "defer:unvisit"},
+}
+
+// the body of the backtrack callback
+var rsCallback = []rsPat{
+	{q(`v, ok := value.(*‹K›) if !ok { return } ‹C›.Value = v refPath, _ := loader.resolveRefPath(ref, documentPath) ‹C›.setRefPath(refPath)`), "checked"},
+	{q(`if v, ok := value.(*‹K›); ok && v != nil { *‹C› = *v }`), "checked"},
+	{q(`‹C›.Value = value.(*‹K›) refPath, _ := loader.resolveRefPath(ref, documentPath) ‹C›.setRefPath(refPath)`), "unchecked"},
+	{q(`*‹C› = *value.(*‹K›)`), "unchecked"},
+}
+
+var rsSingle = []rsPat{
+	{q(`var ‹ID› ‹K›`), "elem"},
+	{q(`if documentPath, err = loader.loadSingleElementFromURI(ref, documentPath, &‹ID›); err != nil { return err }`), "load:moves"},
+	{q(`if documentPath, err = loader.loadSingleElementFromURI(ref, documentPath, &‹ID›); err != nil { return }`), "load:moves"},
+	{q(`if _, err = loader.loadSingleElementFromURI(ref, documentPath, &‹ID›); err != nil { return err }`), "load:stays"},
+	{q(`if _, err = loader.loadSingleElementFromURI(ref, documentPath, &‹ID›); err != nil { return }`), "load:stays"},
+	{q(`‹C›.Value = &‹ID›`), "setValue"},
+	{q(`*‹C› = ‹ID›`), "setValue"},
+	{q(`‹C›.setRefPath(documentPath)`), "setRefPath:moved"},
+}
+
+var rsFragment = []rsPat{
+	{q(`var resolved ‹K›Ref`), "copy"},
+	{q(`var resolved ‹K›`), "copy"},
+	{q(`doc, componentPath, err := loader.resolveComponent(doc, ref, documentPath, &resolved)`), "component:local"},
+	{q(`if err != nil { return err }`), "fail"},
+	{q(`if doc, documentPath, err = loader.resolveComponent(doc, ref, documentPath, &resolved); err != nil { if err == errMUST‹K› { return nil } return }`), "component:switch"},
+	{`if err :?= loader\.resolve‹K›Ref\(doc, &resolved, componentPath(, visited)?\); err != nil \{ if err == errMUST‹K› \{ return nil \} return err \}`, "recurse:swallowEmpty"},
+	{q(`if resolved.Ref != "" { if err = loader.resolve‹K›Ref(doc, &resolved, documentPath); err != nil { return } }`), "recurse:ifRef"},
+	{q(`‹C›.Value = resolved.Value`), "setValue"},
+	{q(`*‹C› = resolved`), "setValue"},
+	{q(`‹C›.setRefPath(resolved.RefPath())`), "setRefPath:target"},
+}
+
+// the functions the model's one-step layer (`stepGo`, `docLoadGo`) and visit bookkeeping were written from: the two
+// shortest as text, the others as a digest of their signature and body (comments and layout do not count)
+var rsFrozenText = map[string]bool{"unescapeRefString": true, "isSingleRefElement": true}
+var rsFrozenHash = map[string]bool{"resolveComponent": true, "drillIntoField": true, "resolveRefAndDocument": true, "resolveRef": true,
+	"resolveRefPath": true, "resolvePathWithRef": true, "resolvePath": true, "join": true, "loadSingleElementFromURI": true,
+	"loadFromURIInternal": true, "loadFromDataWithPathInternal": true, "visitRef": true, "unvisitRef": true, "shouldVisitRef": true}
+
+func rsIsResolverName(n string) bool {
+	if rsFrozenText[n] || rsFrozenHash[n] {
+		return false
+	}
+	return strings.HasPrefix(n, "resolve") && (strings.HasSuffix(n, "Ref") || strings.HasSuffix(n, "Refs")) && n != "resolveRef"
+}
+
+func rsShort(n string) string {
+	n = strings.TrimPrefix(n, "resolve")
+	if strings.HasSuffix(n, "Refs") {
+		return n // helper: ContentRefs, ExampleRefs
+	}
+	return strings.TrimSuffix(n, "Ref")
+}
+
+// rsCalls lists, in source order, the resolver/helper calls in the statements and the returns of new errors
+func rsCalls(fset *token.FileSet, stmts []ast.Stmt, ctxArg string, r *rsRow) {
+	for _, st := range stmts {
+		ast.Inspect(st, func(n ast.Node) bool {
+			switch x := n.(type) {
+			case *ast.FuncLit:
+				return false
+			case *ast.ReturnStmt:
+				for _, e := range x.Results {
+					t := rsText(fset, e)
+					if t != "nil" && t != "err" && !strings.HasPrefix(t, "loader.resolve") {
+						r.calls = append(r.calls, "!error")
+					}
+				}
+			case *ast.CallExpr:
+				se, ok := x.Fun.(*ast.SelectorExpr)
+				if !ok || !rsIsResolverName(se.Sel.Name) {
+					return true
+				}
+				if id, ok := se.X.(*ast.Ident); !ok || id.Name != "loader" {
+					return true
+				}
+				if len(x.Args) < 3 || rsText(fset, x.Args[0]) != "doc" || rsText(fset, x.Args[2]) != ctxArg {
+					r.bad = fmt.Sprintf("child call does not pass (doc, _, %s) at %s", ctxArg, fset.Position(x.Pos()))
+					return true
+				}
+				if _, isAddr := x.Args[1].(*ast.UnaryExpr); isAddr {
+					r.bad = fmt.Sprintf("child call on an address at %s", fset.Position(x.Pos()))
+					return true
+				}
+				r.calls = append(r.calls, rsShort(se.Sel.Name))
+			}
+			return true
+		})
+	}
+}
+
+func rsClassify(fset *token.FileSet, pats []rsPat, kind, comp string, stmts []ast.Stmt, r *rsRow, what string) {
+	for _, st := range stmts {
+		t := rsText(fset, st)
+		tok, ok := rsMatch(pats, kind, comp, t)
+		if !ok {
+			if r.bad == "" {
+				r.bad = fmt.Sprintf("%s statement of unexpected shape at %s: %s", what, fset.Position(st.Pos()), t)
+			}
+			return
+		}
+		r.steps = append(r.steps, tok)
+	}
+}
+
+func rsResolver(fset *token.FileSet, fd *ast.FuncDecl) rsRow {
+	name := fd.Name.Name
+	kind := rsShort(name)
+	r := rsRow{name: kind}
+	params := fd.Type.Params.List
+	fieldIs := func(f *ast.Field, name, typ string) bool {
+		return len(f.Names) == 1 && f.Names[0].Name == name && rsText(fset, f.Type) == typ
+	}
+	if len(params) < 3 || len(params[1].Names) != 1 || !fieldIs(params[0], "doc", "*T") || !fieldIs(params[2], "documentPath", "*url.URL") {
+		r.bad = "parameter list"
+		return r
+	}
+	comp := params[1].Names[0].Name
+	body := fd.Body.List
+	// statements before the `if ref := …` block
+	i := 0
+	for ; i < len(body); i++ {
+		if is, ok := body[i].(*ast.IfStmt); ok && is.Init != nil && rsText(fset, is.Init) == "ref := "+comp+".Ref" && rsText(fset, is.Cond) == `ref != ""` && is.Else == nil {
+			break
+		}
+		rsClassify(fset, rsTop, kind, comp, body[i:i+1], &r, "leading")
+	}
+	if i == len(body) {
+		r.bad = "no `if ref := " + comp + ".Ref; ref != \"\"` block"
+		return r
+	}
+	for _, st := range body[i].(*ast.IfStmt).Body.List {
+		is, isIf := st.(*ast.IfStmt)
+		t := rsText(fset, st)
+		switch {
+		case isIf && strings.HasPrefix(t, "if !loader.shouldVisitRef(ref, func(value any) {"):
+			// if !loader.shouldVisitRef(ref, func(value any) { CB }) { return nil }
+			ue, _ := is.Cond.(*ast.UnaryExpr)
+			var ce *ast.CallExpr
+			if ue != nil {
+				ce, _ = ue.X.(*ast.CallExpr)
+			}
+			var fl *ast.FuncLit
+			if ce != nil && len(ce.Args) == 2 {
+				fl, _ = ce.Args[1].(*ast.FuncLit)
+			}
+			if fl == nil || is.Init != nil || is.Else != nil || rsText(fset, is.Body) != "{ return nil }" {
+				r.bad = "shouldVisitRef statement shape at " + fset.Position(st.Pos()).String()
+				return r
+			}
+			parts := []string{}
+			for _, s := range fl.Body.List {
+				parts = append(parts, rsText(fset, s))
+			}
+			tok, ok := rsMatch(rsCallback, kind, comp, strings.Join(parts, " "))
+			if !ok {
+				r.bad = "backtrack callback of unexpected shape at " + fset.Position(fl.Pos()).String() + ": " + strings.Join(parts, " ")
+				return r
+			}
+			r.steps = append(r.steps, "shouldVisit:"+tok)
+		case isIf && rsText(fset, is.Cond) == "isSingleRefElement(ref)" && is.Init == nil:
+			eb, ok := is.Else.(*ast.BlockStmt)
+			if !ok {
+				r.bad = "single-element branch without else block"
+				return r
+			}
+			r.steps = append(r.steps, "single(")
+			rsClassify(fset, rsSingle, kind, comp, is.Body.List, &r, "single-element")
+			r.steps = append(r.steps, ")", "fragment(")
+			rsClassify(fset, rsFragment, kind, comp, eb.List, &r, "fragment")
+			r.steps = append(r.steps, ")")
+		default:
+			rsClassify(fset, rsBlock, kind, comp, []ast.Stmt{st}, &r, "block")
+		}
+		if r.bad != "" {
+			return r
+		}
+	}
+	rsCalls(fset, body[i+1:], "documentPath", &r)
+	return r
+}
 
 func extractResolverSkeleton(repo string) (string, error) {
 	fset := token.NewFileSet()
@@ -25,74 +276,39 @@ func extractResolverSkeleton(repo string) (string, error) {
 	if err != nil {
 		return "", err
 	}
-	type row struct {
-		name  string
-		flags []bool
-		calls []string
-		bad   string
-	}
-	var rows []row
+	var rows []rsRow
 	for _, d := range f.Decls {
 		fd, ok := d.(*ast.FuncDecl)
-		if !ok || fd.Recv == nil || fd.Body == nil {
+		if !ok || fd.Body == nil {
 			continue
 		}
 		name := fd.Name.Name
-		if !strings.HasPrefix(name, "resolve") || !strings.HasSuffix(name, "Ref") || name == "resolveRef" {
+		if fd.Recv == nil && !rsFrozenText[name] && !rsFrozenHash[name] {
 			continue
 		}
-		var buf bytes.Buffer
-		printer.Fprint(&buf, fset, fd.Body)
-		src := buf.String()
-		kind := strings.TrimSuffix(strings.TrimPrefix(name, "resolve"), "Ref")
-		has := func(s string) bool { return strings.Contains(src, s) }
-		r := row{name: kind}
-		// skeleton flags, in this order:
-		//  0 value-present check   1 shouldVisitRef   2 visitRef   3 single-element branch
-		//  4 single-element load MOVES documentPath   5 resolveComponent   6 recursive call on the copy
-		//  7 deferred unvisitRef
-		valueCheck := has("component.Value != nil") || has("!pathItem.isEmpty()")
-		moves := has("documentPath, err = loader.loadSingleElementFromURI(")
-		stays := has("_, err = loader.loadSingleElementFromURI(")
-		if moves == stays {
-			r.bad = "single-element load neither/both moving documentPath"
+		switch {
+		case name == "ResolveRefsIn":
+			r := rsRow{name: "Document"}
+			rsCalls(fset, fd.Body.List, "location", &r)
+			rows = append(rows, r)
+		case rsIsResolverName(name) && strings.HasSuffix(name, "Refs"):
+			r := rsRow{name: rsShort(name)}
+			rsCalls(fset, fd.Body.List, "documentPath", &r)
+			rows = append(rows, r)
+		case rsIsResolverName(name):
+			rows = append(rows, rsResolver(fset, fd))
+		case rsFrozenText[name]:
+			rows = append(rows, rsRow{name: "fn:" + name, steps: []string{rsText(fset, fd.Body)}})
+		case rsFrozenHash[name]:
+			sum := sha256.Sum256([]byte(rsText(fset, fd.Type) + " " + rsText(fset, fd.Body)))
+			rows = append(rows, rsRow{name: "fn:" + name, steps: []string{"sha256:" + hex.EncodeToString(sum[:8])}})
 		}
-		r.flags = []bool{valueCheck, has("loader.shouldVisitRef(ref,"), has("loader.visitRef(ref)"), has("isSingleRefElement(ref)"),
-			moves, has("loader.resolveComponent(doc, ref, documentPath, &resolved)"), has("loader." + name + "(doc, &resolved, componentPath"),
-			has("defer loader.unvisitRef(ref,")}
-		// calls on child positions: every call loader.resolveXRef(doc, <arg>, documentPath…) whose argument is not &resolved
-		ast.Inspect(fd.Body, func(n ast.Node) bool {
-			ce, ok := n.(*ast.CallExpr)
-			if !ok {
-				return true
-			}
-			se, ok := ce.Fun.(*ast.SelectorExpr)
-			if !ok || !strings.HasPrefix(se.Sel.Name, "resolve") || !strings.HasSuffix(se.Sel.Name, "Ref") || se.Sel.Name == "resolveRef" {
-				return true
-			}
-			if len(ce.Args) < 3 {
-				return true
-			}
-			if ue, ok := ce.Args[1].(*ast.UnaryExpr); ok && ue.Op == token.AND {
-				return true // the recursive call on the local copy
-			}
-			arg := ""
-			if id, ok := ce.Args[1].(*ast.Ident); ok {
-				arg = id.Name
-			} else {
-				r.bad = fmt.Sprintf("call argument shape at %s", fset.Position(ce.Pos()))
-			}
-			_ = arg
-			r.calls = append(r.calls, strings.TrimSuffix(strings.TrimPrefix(se.Sel.Name, "resolve"), "Ref"))
-			return true
-		})
-		rows = append(rows, r)
 	}
 	sort.Slice(rows, func(i, j int) bool { return rows[i].name < rows[j].name })
 	var b strings.Builder
 	b.WriteString("/- GENERATED by go/cmd/extract (table ResolverSkeleton) from openapi3/loader.go — do not edit -/\n")
 	b.WriteString("namespace KinModel.Gen\n\n")
-	b.WriteString("inductive ResolverRow\n  | row (kind : String) (flags : List Bool) (calls : List String)\n  | unrecognised (whereAt : String)\n  deriving DecidableEq, Repr\n\ndef ResolverRow.isRow : ResolverRow → Bool\n  | .row _ _ _ => true\n  | .unrecognised _ => false\n\n")
+	b.WriteString("inductive ResolverRow\n  | row (kind : String) (steps : List String) (calls : List String)\n  | unrecognised (whereAt : String)\n  deriving DecidableEq, Repr\n\ndef ResolverRow.isRow : ResolverRow → Bool\n  | .row _ _ _ => true\n  | .unrecognised _ => false\n\n")
 	fmt.Fprintf(&b, "-- rows: %d\n", len(rows))
 	b.WriteString("def resolverSkeleton : List ResolverRow := [\n")
 	for i, r := range rows {
@@ -104,15 +320,14 @@ func extractResolverSkeleton(repo string) (string, error) {
 			fmt.Fprintf(&b, "  .unrecognised %q%s\n", r.name+": "+r.bad, sep)
 			continue
 		}
-		fl := []string{}
-		for _, x := range r.flags {
-			fl = append(fl, fmt.Sprint(x))
+		ql := func(l []string) string {
+			o := []string{}
+			for _, c := range l {
+				o = append(o, fmt.Sprintf("%q", c))
+			}
+			return strings.Join(o, ", ")
 		}
-		cl := []string{}
-		for _, c := range r.calls {
-			cl = append(cl, fmt.Sprintf("%q", c))
-		}
-		fmt.Fprintf(&b, "  .row %q [%s] [%s]%s\n", r.name, strings.Join(fl, ", "), strings.Join(cl, ", "), sep)
+		fmt.Fprintf(&b, "  .row %q [%s] [%s]%s\n", r.name, ql(r.steps), ql(r.calls), sep)
 	}
 	b.WriteString("]\n\nend KinModel.Gen\n")
 	return b.String(), nil
